@@ -15,6 +15,7 @@
 
 #include <fmt/core.h>
 
+#include <exception>
 #include <string>
 #include <string_view>
 #include <optional>
@@ -172,6 +173,13 @@ int main(int argc, char** argv)
     catch(const sbe_error& e)
     {
         reporter.error("{}", e.what());
+        return 1;
+    }
+    catch(const std::exception& e)
+    {
+        // anything else (std::bad_alloc, filesystem or formatting errors) must
+        // still end with a diagnostic and a non-zero status, not std::terminate
+        reporter.error("unexpected error: {}", e.what());
         return 1;
     }
 
